@@ -21,7 +21,7 @@
 // <vals> = "." (header absent) or comma separated hex values ("-" = empty).
 // For raw ops the model is given the value AS DELIVERED by the HTTP/3 stack (learnt from
 // a second header carrying the same bytes), since that stack is not hysteria's code.
-package integration_tests
+package main
 
 import (
 	"context"
@@ -39,7 +39,6 @@ import (
 	"strconv"
 	"strings"
 	"sync"
-	"testing"
 	"time"
 
 	"github.com/apernet/hysteria/core/v2/client"
@@ -51,12 +50,8 @@ import (
 	"github.com/apernet/quic-go/http3"
 )
 
-func TestVerifC10(t *testing.T) {
-	c := c10NewComp()
-	defer c.close()
-	if !vh.RunFromEnv(c) {
-		t.Skip("VERIF_OUT not set")
-	}
+func init() {
+	vh.Register("ratehs", func() vh.Component { return c10NewComp() })
 }
 
 // ------------------------------------------------------------------ plumbing
